@@ -22,7 +22,9 @@
 // (e) abandoned upload attempts, (f) the options channel (options.go), (g) the
 // result put into the file (resign.go), (h) options that name a client-side
 // file, whose content travels in the upload stream (fileopts.go), (i) inputs
-// that already carry a signature, under the read schedules of (b) (signed.go).
+// that already carry a signature, under the read schedules of (b) (signed.go),
+// (j) body lengths around the powers of two x request encodings, generated on
+// the fly and signed through the real handler (bodylength.go).
 package main
 
 import (
@@ -1010,11 +1012,17 @@ func main() {
 	if only("resign") {
 		resignPhase(cfg)
 	}
-	run.Set("bounds", map[string]any{"upload_streams": len(ss), "fixture_streams": nBase, "streams_with_file_naming_options": len(withFiles), "already_signed_streams": len(signedBefore)})
-	run.Rule("(a) the client-side transform of every upload stream read three times (and once more with the input on a pipe): 24 fixture streams (every signer type, PGP in three modes), the streams of (h) that carry option files, and the already-signed inputs of (i); (b) each stream (fixture streams of the streaming digesters, the streams of (h) and of (i)) x every read-size schedule: constant sizes {1,2,7,511,512,513,4095,4096,4097,65535,65536,65537,2^20-1,2^20,2^20+1,unbounded}, ordered pairs as 2-cycles (quick: 7-value sub-ladder; thorough: full ladder), one short read (1 byte; one byte under the copy buffer) at every read index of the default schedule (capped at 80 indices) - the real server-side Sign, then Apply, Fixup and relic verify with integrity on; where the result is a binary patch, the places of the input it replaces (offset, length removed; read from the patch header by the harness) must be the same under every schedule; (c)+(d) every sequence of per-attempt outcomes {ok, 503, 500, 406, refused, 403} through the real client doRequest loop for accept-encodings {none, gzip, snappy, both, unknown} x 1-3 servers x retries {1,3} for a plain archive, and for every stream of (h) with 2 servers, one pass, accept-encodings {none, gzip} (thorough: all five): the decoded body of every attempt equals the first attempt's, and the file signed after any history embeds the digests that standalone signing embeds; (e) an upload attempt cut short by the server after {0,1,10} bytes (503, request body closed by the transport) followed by a second attempt from the same Transformer, for gzip / snappy / identity: the abandoned attempt's compressor goroutine is adopted by the cooperative scheduler at its first read of the shared file, every interleaving of file seek/read operations of the two attempts up to 1 (thorough 2) preemptions, threads parked in the pipe followed by the scheduler's monitor; (f) the options channel: every signer module x every single option and every pair of options, each explicitly set to every value of {true,false} / {plain, reserved characters, empty}: command line -> FlagsFromCmdline -> ToQuery -> encoded query -> FlagsFromQuery, every option read on both sides; (g) {pe, ps1, cab, msi, dmg, mach-o, xap, jar, apk, vsix, appx} x {unsigned, signed before with a ten-certificate chain and SHA-512, with page hashes, with a P-256 key}: the server's result applied over the input and into a new file, both results compared and verified. (h) options that name a client-side file, found from the signers' own flag definitions (every string-valued option of every module that can sign: the transform succeeds with the path of an existing file and fails with a path that does not exist): per module every non-empty subset of these options x file lengths {0,1,511,512,513}, arbitrary content - the stream read three times is identical, is not the stream without the options, and every read changes when one byte of any one named file is changed; with contents the signer accepts (all of a module's options together; thorough: also each alone) the streams go through (a), (b) and (c)+(d), where the code-signature slots of the result other than the CMS blob (code directories with page and bound-file hashes, requirements, entitlements; located by the harness through LC_CODE_SIGNATURE / the koly trailer) must equal those of standalone signing with the same options; (i) already-signed inputs: every fixture stream except the detached-signature ones and the 2 MiB archive, signed before {with the same key and digest; with a ten-certificate chain and SHA-512 (the larger chain alone where the type refuses SHA-512); into another slot where the format has several (.deb roles)}, kept if relic verify accepts it, then through (a) and (b) (inputs over 512 KiB: thorough). distinct_nontrivial = (stream,schedule) pairs + failover histories with >=2 attempts")
+	if only("bodylength") {
+		bodyLengthPhase(cfg)
+	}
+	bodyLengthCases, _ := bodyCases(run.Thorough())
+	nBodyCases := len(bodyLengthCases)
+	run.Set("bounds", map[string]any{"upload_streams": len(ss), "fixture_streams": nBase, "streams_with_file_naming_options": len(withFiles), "already_signed_streams": len(signedBefore), "body_length_x_encoding_cases": nBodyCases})
+	run.Rule("(a) the client-side transform of every upload stream read three times (and once more with the input on a pipe): 24 fixture streams (every signer type, PGP in three modes), the streams of (h) that carry option files, and the already-signed inputs of (i); (b) each stream (fixture streams of the streaming digesters, the streams of (h) and of (i)) x every read-size schedule: constant sizes {1,2,7,511,512,513,4095,4096,4097,65535,65536,65537,2^20-1,2^20,2^20+1,unbounded}, ordered pairs as 2-cycles (quick: 7-value sub-ladder; thorough: full ladder), one short read (1 byte; one byte under the copy buffer) at every read index of the default schedule (capped at 80 indices) - the real server-side Sign, then Apply, Fixup and relic verify with integrity on; where the result is a binary patch, the places of the input it replaces (offset, length removed; read from the patch header by the harness) must be the same under every schedule; (c)+(d) every sequence of per-attempt outcomes {ok, 503, 500, 406, refused, 403} through the real client doRequest loop for accept-encodings {none, gzip, snappy, both, unknown} x 1-3 servers x retries {1,3} for a plain archive, and for every stream of (h) with 2 servers, one pass, accept-encodings {none, gzip} (thorough: all five): the decoded body of every attempt equals the first attempt's, and the file signed after any history embeds the digests that standalone signing embeds; (e) an upload attempt cut short by the server after {0,1,10} bytes (503, request body closed by the transport) followed by a second attempt from the same Transformer, for gzip / snappy / identity: the abandoned attempt's compressor goroutine is adopted by the cooperative scheduler at its first read of the shared file, every interleaving of file seek/read operations of the two attempts up to 1 (thorough 2) preemptions, threads parked in the pipe followed by the scheduler's monitor; (f) the options channel: every signer module x every single option and every pair of options, each explicitly set to every value of {true,false} / {plain, reserved characters, empty}: command line -> FlagsFromCmdline -> ToQuery -> encoded query -> FlagsFromQuery, every option read on both sides; (g) {pe, ps1, cab, msi, dmg, mach-o, xap, jar, apk, vsix, appx} x {unsigned, signed before with a ten-certificate chain and SHA-512, with page hashes, with a P-256 key}: the server's result applied over the input and into a new file, both results compared and verified. (h) options that name a client-side file, found from the signers' own flag definitions (every string-valued option of every module that can sign: the transform succeeds with the path of an existing file and fails with a path that does not exist): per module every non-empty subset of these options x file lengths {0,1,511,512,513}, arbitrary content - the stream read three times is identical, is not the stream without the options, and every read changes when one byte of any one named file is changed; with contents the signer accepts (all of a module's options together; thorough: also each alone) the streams go through (a), (b) and (c)+(d), where the code-signature slots of the result other than the CMS blob (code directories with page and bound-file hashes, requirements, entitlements; located by the harness through LC_CODE_SIGNATURE / the koly trailer) must equal those of standalone signing with the same options; (i) already-signed inputs: every fixture stream except the detached-signature ones and the 2 MiB archive, signed before {with the same key and digest; with a ten-certificate chain and SHA-512 (the larger chain alone where the type refuses SHA-512); into another slot where the format has several (.deb roles)}, kept if relic verify accepts it, then through (a) and (b) (inputs over 512 KiB: thorough); (j) body lengths x request encodings: a body of exactly L bytes, generated on the fly (position-dependent pattern, never stored), sent through relic's client-side request compressor for each encoding the server advertises {identity, gzip, x-snappy-framed} and the real server handler (compression middleware, /sign) to the signer that takes its input as it comes (PGP detached signature), for L in {2^k-1, 2^k, 2^k+1 : k in 16,20,24} and {2^30, 2^30+1} (thorough: k in 16,20,24,28,30 with offsets {-1,0,+1,+4097}, plus 2^31+1 with snappy and 2^32+1 with snappy and gzip): a 2xx answer must carry a version 4 signature packet (read by the harness per RFC 4880) whose RSA value verifies, under the fixture key's public half, over SHA-256 of the whole generated body finished with the packet's own hashed fields - the digest the harness computed while generating; hash states kept at the 2^k prefixes only name, in the report, which prefix was signed instead. distinct_nontrivial = (stream,schedule) pairs + failover histories with >=2 attempts + (length,encoding) pairs")
 	run.Assume("'the same content digest' is decided by relic's verifier accepting the patched file with integrity checking on (the digest the verifier recomputes is a function of the file alone), since signatures embed the signing time and cannot be compared byte-wise")
 	run.Assume("request bodies are compared after decoding with relic's own compresshttp middleware")
 	run.Assume("an option names a client-side file if the client-side transform fails when the named path does not exist; an option whose file is opened only later (or never) on the client is not found this way and is recorded as an outcome when its help text says 'file'")
+	run.Assume("(j) body lengths: the request is compressed by relic's own client-side CompressRequest and decoded by the server's middleware, so a length-dependent fault of either half shows as one violation; the signer is PGP detached only (the signers that know the length of their input from a tar or zip envelope end in an error, not in a signature, when the body is cut); a refusal (non-2xx) signs nothing and is recorded as an outcome; NOT covered at these sizes: response bodies (a signature is small), the client request loop with retries and failover (covered for small bodies in (c)+(d)), lengths that are not within 4097 of a power of two from 2^16 to 2^32, and bodies beyond 2^32+1 bytes")
 	run.Assume("abandoned-attempt exploration: a deadlock is read off goroutine states sampled from runtime.Stack; the verdict is given when the same schedule ends that way three times in a row")
 	run.Finish()
 }
